@@ -18,7 +18,6 @@ import (
 
 	"github.com/plgd-dev/go-coap/v3/message/pool"
 	"github.com/plgd-dev/go-coap/v3/options"
-	"github.com/plgd-dev/go-coap/v3/udp"
 	"pgregory.net/rapid"
 
 	"verif/bubble"
@@ -27,6 +26,7 @@ import (
 	"verif/memnet"
 	"verif/peer"
 	"verif/refcodec"
+	"verif/roles"
 )
 
 type pingScenario struct {
@@ -38,6 +38,8 @@ type pingScenario struct {
 	PongAfter     int    `json:"pongAfter"` // the peer answers the k-th copy it receives (1-based)
 	PongDelayMs   int    `json:"pongDelayMs"`
 	Ticks         []int  `json:"ticks"`
+	// Role: "" a client connection; "server" the connection a dtls.NewServer creates for an accepted peer
+	Role string `json:"role,omitempty"`
 }
 
 func execPing(t *testing.T, sc pingScenario) *evid.Failure {
@@ -49,11 +51,14 @@ func execPing(t *testing.T, sc pingScenario) *evid.Failure {
 	res := bubble.Run(t, 60*time.Second, nil, func() {
 		link := memnet.NewPacketLink(memnet.LinkCfg{LatencyMs: 1})
 		var tk endpoints.Ticker
-		cli := endpoints.UDP(link.A, []udp.Option{
+		cli, stopRole, errRole := roles.Packet(sc.Role, link, bubble.Wait, []any{
 			options.WithMessagePool(pool.New(8, 2048)), options.WithPeriodicRunner(tk.Runner()),
 			options.WithBlockwise(false, 6, time.Second),
 			options.WithTransmission(1, ackT, uint32(sc.MaxRetransmit)),
 		}...)
+		if errRole != nil {
+			panic(errRole)
+		}
 		start := time.Now()
 		var cancelPing func()
 		if sc.Async {
@@ -132,6 +137,7 @@ func execPing(t *testing.T, sc pingScenario) *evid.Failure {
 		bubble.Wait()
 		wire = link.Log()
 		_ = cli.Close()
+		stopRole()
 		bubble.Wait()
 	})
 	if res.Panic != "" {
@@ -200,6 +206,9 @@ func genPing(t *rapid.T) pingScenario {
 	sc := pingScenario{AckTimeoutMs: ack, MaxRetransmit: rapid.IntRange(0, 4).Draw(t, "maxre"), Async: rapid.Bool().Draw(t, "async"),
 		Pong: rapid.SampledFrom([]string{"rst", "ack", "none", "none"}).Draw(t, "pong"), PongAfter: rapid.IntRange(1, 4).Draw(t, "pongafter"),
 		PongDelayMs: rapid.SampledFrom([]int{0, 1, ack / 2, ack + 1}).Draw(t, "pongdelay")}
+	if rapid.IntRange(0, 2).Draw(t, "role") == 0 {
+		sc.Role = "server"
+	}
 	sc.EndMs = rapid.SampledFrom([]int{ack / 2, ack + 10, 2*ack + 10, (sc.MaxRetransmit + 3) * ack}).Draw(t, "end")
 	if sc.Async && rapid.IntRange(0, 3).Draw(t, "nocancel") == 0 {
 		sc.EndMs = 0
